@@ -8,6 +8,7 @@
 (*            trials, obs: [raised, files, totals, analysis]]              *)
 (* obs.files[t+1]  trials found in results_<t+1>.json.gz (-1 no file,      *)
 (*                 -2 unreadable / simulations of unequal length)          *)
+(* obs.before[t+1] the same, observed just before the step                  *)
 (* obs.totals[i+1] trials found for input i summed over all result files   *)
 (* obs.analysis[i+1] n_trials that Analysis(results/) reports for input i  *)
 (* The events drive Pipeline's own actions; the state after each action is *)
@@ -20,7 +21,8 @@ EXTENDS DataDriven
 
 VARIABLES cfg, T, files, extended, steps, hist, tid, l, doneJobs
 P == INSTANCE Pipeline WITH MaxI <- 1000, MaxN <- 1000, MaxC <- 1000,
-                             MaxT <- 100000, MaxSteps <- 100000
+                             MaxT <- 100000, MaxSteps <- 100000,
+                             MinN <- 1, MinC <- 1
 
 Ev(t, j) == Recs[t].steps[j]
 
@@ -55,6 +57,8 @@ Violations(e) ==
       THEN {"total_trials_of_an_input_differ_from_the_request_after_all_jobs"} ELSE {})
 \cup (IF e.a = "job" /\ \E t \in P!TasksOf(e.job) : o.files[t + 1] < 1
       THEN {"task_without_a_trial_or_without_a_result_file_of_its_own"} ELSE {})
+\cup (IF \E t \in P!Tasks \ P!TasksOf(e.job) : o.files[t + 1] < o.before[t + 1]
+      THEN {"result_file_of_a_task_of_another_job_lost_or_shortened"} ELSE {})
 Notes(e) ==
   LET o == e.obs IN
      (IF \E t \in P!Tasks : (IF o.files[t + 1] < 0 THEN 0 ELSE o.files[t + 1]) # P!Stored(t)
